@@ -444,7 +444,7 @@ func genTyped(t *rapid.T) Case {
 	if err != nil {
 		return c
 	}
-	c.Names = sparse(an, genNames(t, an))
+	c.Names = sparse(an, genNames(t, an, text))
 	return c
 }
 
